@@ -372,3 +372,213 @@ Proof.
       * unfold dhas. rewrite (dget_absent kw extra name Hk Dn). reflexivity.
     + destruct kd; reflexivity.
 Qed.
+
+Lemma leftover_check fs (n : dict) :
+  forallb (fun kv => has_init_field fs (fst kv)) (leftover fs n) = forallb (fun kv => has_field fs (fst kv)) n.
+Proof.
+  unfold leftover. induction n as [|[k x] r IH]; [reflexivity|]. cbn [filter forallb fst].
+  destruct (has_field fs k) eqn:E; cbn [negb andb]; [exact IH|].
+  cbn [forallb fst]. unfold has_init_field. unfold has_field in E. destruct (flookup fs k); [discriminate | reflexivity].
+Qed.
+
+Lemma loop_keys_init rec n l : forall kw, loop F0 rec n l = Ok kw ->
+  forall k, In k (dkeys kw) -> exists v, In (k, FInit, v) l.
+Proof.
+  induction l as [|[[name kd] v] r IH]; intros kw H k Hk.
+  - simpl in H. injection H as <-. destruct Hk.
+  - cbn [loop] in H. change (fname (name, kd, v)) with name in H. change (fknd (name, kd, v)) with kd in H.
+    change (fval (name, kd, v)) with v in H.
+    assert (Rest : forall kw', loop F0 rec n r = Ok kw' -> In k (dkeys kw') -> exists v0, In (k, FInit, v0) ((name, kd, v) :: r)).
+    { intros kw' L Hin. destruct (IH kw' L k Hin) as [v0 Hv0]. exists v0. now right. }
+    destruct (dget n name) as [c|] eqn:G.
+    + destruct kd as [|t d]; cbn [is_noninit] in H; [|discriminate].
+      cbn [F0 f_need_dc f_need_dict implb] in H.
+      destruct (is_dc v && is_dict c) eqn:C.
+      * destruct c as [| sub |]; try discriminate.
+        apply bind_ok in H as [nv [_ H]]. apply bind_ok in H as [kw' [L H]]. injection H as <-.
+        destruct Hk as [<-|Hk]; [exists v; now left | eapply Rest; eassumption].
+      * apply bind_ok in H as [kw' [L H]]. injection H as <-.
+        destruct Hk as [<-|Hk]; [exists v; now left | eapply Rest; eassumption].
+    + cbn [F0 f_noninit_first andb] in H. eapply Rest; eassumption.
+Qed.
+
+Lemma nodup_names fs : str_nodupb (map fname fs) = true -> NoDup (map fname fs).
+Proof. apply str_nodupb_NoDup. Qed.
+
+(* one level of the model, on a normal form *)
+Lemma replace_dc_char cls fs n :
+  NoDup (map fname fs) -> keys_ok n = true ->
+  replace F0 (VDc cls fs) n =
+  bind (each (replace F0) n fs) (fun fs' =>
+    if forallb (fun kv => has_field fs (fst kv)) n then Ok (VDc cls fs') else Err (Raise "TypeError")).
+Proof.
+  intros N K. rewrite replace_eq. cbn [f_sep F0]. rewrite (unflatten_split_nf n K). cbn [bind f_leftover].
+  assert (D : forall k, In k (dkeys (leftover fs n)) -> ~ In k (map fname fs)).
+  { intros k Hk. unfold leftover, dkeys in Hk. apply in_map_iff in Hk as [[k' x] [<- Hin]].
+    apply filter_In in Hin as [_ Hf]. cbn [fst] in *. apply negb_true_iff in Hf.
+    apply flookup_none. unfold has_field in Hf. destruct (flookup fs k'); [discriminate | reflexivity]. }
+  rewrite <- (loop_each (replace F0) n fs (leftover fs n) N D).
+  destruct (loop F0 (replace F0) n fs) as [kw|e] eqn:L; cbn [bind]; [|reflexivity].
+  unfold dc_replace. cbn [f_leftover F0]. rewrite forallb_app, leftover_check.
+  assert (Hkw : forallb (fun kv => has_init_field fs (fst kv)) kw = true).
+  { apply forallb_forall. intros [k x] Hin. cbn [fst].
+    destruct (loop_keys_init _ _ _ _ L k) as [v Hv].
+    - change k with (fst (k, x)). now apply in_map.
+    - unfold has_init_field. now rewrite (In_flookup _ _ _ _ N Hv). }
+  rewrite Hkw. reflexivity.
+Qed.
+
+Lemma each_ext rec1 rec2 n l :
+  (forall f sub, In f l -> dget n (fname f) = Some (VDict sub) -> rec1 (fval f) sub = rec2 (fval f) sub) ->
+  each rec1 n l = each rec2 n l.
+Proof.
+  induction l as [|f r IH]; intros H; [reflexivity|].
+  cbn [each]. rewrite IH by (intros f0 sub Hin; apply H; now right).
+  assert (E : newval rec1 n f = newval rec2 n f).
+  { unfold newval. destruct (fknd f); [|reflexivity]. destruct (dget n (fname f)) as [[| sub |]|] eqn:G; try reflexivity.
+    destruct (is_dc (fval f)); [|reflexivity]. apply H; [now left | exact G]. }
+  now rewrite E.
+Qed.
+
+Lemma deep_nf_sub cs k sub : deep_nf cs = true -> dget cs k = Some (VDict sub) -> deep_nf sub = true.
+Proof.
+  unfold deep_nf, nf_dict. intros H G. apply andb_true_iff in H as [_ H].
+  rewrite forallb_forall in H. specialize (H _ (dget_In _ _ _ G)). cbn [snd nf_val orb andb] in H. exact H.
+Qed.
+
+Lemma deep_nf_keys cs : deep_nf cs = true -> keys_ok cs = true.
+Proof. unfold deep_nf, nf_dict. intros H. now apply andb_true_iff in H as [H _]. Qed.
+
+Lemma wf_obj_dc cls fs : wf_obj (VDc cls fs) = true ->
+  NoDup (map fname fs) /\ forall f, In f fs -> wf_obj (fval f) = true.
+Proof.
+  cbn [wf_obj]. intros H. apply andb_true_iff in H as [H1 H2]. split; [now apply nodup_names|].
+  now rewrite forallb_forall in H2.
+Qed.
+
+(* the model, instantiated with the regenerated facts, IS the per-field reference on normal forms *)
+Theorem model_ref o : forall cs, wf_obj o = true -> deep_nf cs = true -> replace F0 o cs = replace_ref o cs.
+Proof.
+  induction o as [t r|d _|cls fs IH] using value_ind'; intros cs W D.
+  - rewrite replace_eq. cbn [f_sep F0]. now rewrite (unflatten_split_nf cs (deep_nf_keys _ D)).
+  - rewrite replace_eq. cbn [f_sep F0]. now rewrite (unflatten_split_nf cs (deep_nf_keys _ D)).
+  - apply wf_obj_dc in W as [N Wf]. rewrite (replace_dc_char cls fs cs N (deep_nf_keys _ D)).
+    cbn [replace_ref]. rewrite (each_ext (replace F0) replace_ref cs fs); [reflexivity|].
+    intros f sub Hin G. rewrite Forall_forall in IH. apply (IH f Hin sub (Wf f Hin)).
+    eapply deep_nf_sub; eassumption.
+Qed.
+
+(* ====================================================================== *)
+(* errors: a change aimed at an init=False / unknown field raises; nothing else does *)
+(* ====================================================================== *)
+Definition is_ok {A} (r : res A) : bool := match r with Ok _ => true | Err _ => false end.
+
+Definition bad_entry (fs : list field) (kx : string * value) : bool :=
+  match child fs (fst kx) with
+  | None => true
+  | Some y => match snd kx, y with VDict sub, VDc _ _ => must_raise y sub | _, _ => false end
+  end.
+
+Lemma existsb_map {A B} (f : B -> bool) (g : A -> B) l : existsb f (map g l) = existsb (fun x => f (g x)) l.
+Proof. induction l as [|x r IH]; simpl; [reflexivity | now rewrite IH]. Qed.
+
+Lemma existsb_ext_in {A} (f g : A -> bool) l : (forall x, In x l -> f x = g x) -> existsb f l = existsb g l.
+Proof.
+  induction l as [|x r IH]; intros H; simpl; [reflexivity|].
+  rewrite (H x (or_introl eq_refl)), IH; [reflexivity | intros y Hy; apply H; now right].
+Qed.
+
+Lemma assigns_items_In fs (cs : dict) q v :
+  In (q, v) (assigns_items assigns_v fs cs) <->
+  exists k x q', In (k, x) cs /\ q = k :: q' /\ In (q', v) (assigns_v x (child fs k)).
+Proof.
+  induction cs as [|[k x] r IH]; cbn [assigns_items fst snd].
+  - split; [intros [] | intros [k [x [q' [[] _]]]]].
+  - rewrite in_app_iff, IH, in_map_iff. split.
+    + intros [[[q' v'] [E Hin]]|[k' [x' [q' [Hin [E1 E2]]]]]].
+      * cbn [fst snd] in E. injection E as <- <-. exists k, x, q'. repeat split; [now left | exact Hin].
+      * exists k', x', q'. repeat split; [now right | exact E1 | exact E2].
+    + intros [k' [x' [q' [[E|Hin] [E1 E2]]]]].
+      * injection E as <- <-. left. exists (q', v). split; [now subst | exact E2].
+      * right. exists k', x', q'. repeat split; assumption.
+Qed.
+
+Lemma assigns_items_nonempty fs (cs : dict) qv : In qv (assigns_items assigns_v fs cs) -> fst qv <> [].
+Proof.
+  destruct qv as [q v]. intros H. apply assigns_items_In in H as [k [x [q' [_ [-> _]]]]]. discriminate.
+Qed.
+
+Lemma assigns_dc cls fs cs : assigns (VDc cls fs) cs = assigns_items assigns_v fs cs.
+Proof. reflexivity. Qed.
+
+Lemma must_raise_dc cls fs cs : must_raise (VDc cls fs) cs = existsb (bad_entry fs) cs.
+Proof.
+  unfold must_raise. rewrite assigns_dc.
+  induction cs as [|[k x] r IH]; [reflexivity|].
+  cbn [assigns_items existsb fst snd]. rewrite existsb_app. f_equal; [|exact IH].
+  rewrite existsb_map. cbn [fst]. unfold bad_entry. cbn [fst snd settable].
+  destruct (child fs k) as [y|] eqn:C.
+  - destruct x as [t0 r0| sub | c0 f0]; destruct y as [t1 r1| d1 | c' f']; try reflexivity.
+    cbn [assigns_v]. unfold must_raise. rewrite assigns_dc. apply existsb_ext_in.
+    intros [q v] Hin. apply assigns_items_nonempty in Hin. cbn [fst] in *. destruct q; [congruence | reflexivity].
+  - destruct x; reflexivity.
+Qed.
+
+Lemma child_flookup fs k y : child fs k = Some y <-> flookup fs k = Some (FInit, y).
+Proof.
+  unfold child. destruct (flookup fs k) as [[[|t d] v]|]; split; intros H; try discriminate; congruence.
+Qed.
+
+Lemma is_ok_each rec n l : is_ok (each rec n l) = forallb (fun f => is_ok (newval rec n f)) l.
+Proof.
+  induction l as [|f r IH]; [reflexivity|]. cbn [each forallb].
+  destruct (newval rec n f) as [nv|e]; cbn [bind is_ok andb]; [|reflexivity].
+  rewrite <- IH. destruct (each rec n r); reflexivity.
+Qed.
+
+Lemma is_ok_replace_ref_dc cls fs cs :
+  is_ok (replace_ref (VDc cls fs) cs) =
+  forallb (fun f => is_ok (newval replace_ref cs f)) fs && forallb (fun kv => has_field fs (fst kv)) cs.
+Proof.
+  cbn [replace_ref]. rewrite <- is_ok_each. destruct (each replace_ref cs fs); cbn [bind is_ok andb]; [|reflexivity].
+  destruct (forallb _ cs); reflexivity.
+Qed.
+
+Theorem ok_iff_not_must_raise o : forall cs, wf_obj o = true -> deep_nf cs = true ->
+  is_ok (replace_ref o cs) = negb (must_raise o cs).
+Proof.
+  induction o as [t r|d _|cls fs IH] using value_ind'; intros cs W D; try reflexivity.
+  apply wf_obj_dc in W as [N Wf]. rewrite Forall_forall in IH.
+  assert (Kc : NoDup (dkeys cs)). { apply deep_nf_keys, keys_ok_iff in D. tauto. }
+  rewrite is_ok_replace_ref_dc, must_raise_dc.
+  apply Bool.eq_true_iff_eq. rewrite negb_true_iff, andb_true_iff, !forallb_forall. split.
+  - intros [Hnv Hf]. apply not_true_is_false. intros Hex. apply existsb_exists in Hex as [[k x] [Hin Hbad]].
+    unfold bad_entry in Hbad. cbn [fst snd] in Hbad.
+    specialize (Hf _ Hin). cbn [fst] in Hf. unfold has_field in Hf.
+    destruct (flookup fs k) as [[kd v]|] eqn:Lk; [|discriminate].
+    assert (Hfin := flookup_In _ _ _ _ Lk). specialize (Hnv _ Hfin).
+    unfold newval in Hnv. change (fname (k, kd, v)) with k in Hnv. change (fknd (k, kd, v)) with kd in Hnv.
+    change (fval (k, kd, v)) with v in Hnv. rewrite (In_dget _ _ _ Kc Hin) in Hnv.
+    unfold child in Hbad. rewrite Lk in Hbad. destruct kd as [|t d]; [|discriminate].
+    destruct x as [t0 r0| sub | c0 f0]; try discriminate.
+    destruct v as [t1 r1| d1 | c' f']; try discriminate.
+    cbn [is_dc] in Hnv.
+    assert (E := IH _ Hfin sub (Wf _ Hfin) (deep_nf_sub _ _ _ D (In_dget _ _ _ Kc Hin))).
+    change (fval (k, FInit, VDc c' f')) with (VDc c' f') in E. rewrite E, Hbad in Hnv. discriminate.
+  - intros Hex. assert (Hgood : forall kx, In kx cs -> bad_entry fs kx = false).
+    { intros kx Hin. apply not_true_is_false. intros Hb. rewrite <- not_true_iff_false in Hex. apply Hex.
+      apply existsb_exists. eauto. }
+    split.
+    + intros [[name kd] v] Hfin. unfold newval. change (fname (name, kd, v)) with name.
+      change (fknd (name, kd, v)) with kd. change (fval (name, kd, v)) with v.
+      assert (Lk := In_flookup _ _ _ _ N Hfin).
+      destruct (dget cs name) as [x|] eqn:G; [|destruct kd; reflexivity].
+      specialize (Hgood _ (dget_In _ _ _ G)). unfold bad_entry, child in Hgood. cbn [fst snd] in Hgood.
+      rewrite Lk in Hgood. destruct kd as [|t d]; [|discriminate].
+      destruct x as [t0 r0| sub | c0 f0]; try reflexivity.
+      destruct v as [t1 r1| d1 | c' f']; try reflexivity. cbn [is_dc].
+      assert (E := IH _ Hfin sub (Wf _ Hfin) (deep_nf_sub _ _ _ D G)).
+      change (fval (name, FInit, VDc c' f')) with (VDc c' f') in E. now rewrite E, Hgood.
+    + intros [k x] Hin. specialize (Hgood _ Hin). unfold bad_entry, child in Hgood. cbn [fst snd] in *.
+      unfold has_field. destruct (flookup fs k); [reflexivity | discriminate].
+Qed.
